@@ -213,6 +213,15 @@ func (m *promptManager) handleGetPrompt(ctx context.Context, req *JSONRPCRequest
 		if err != nil {
 			return newJSONRPCErrorResponse(req.ID, ErrCodeInternal, err.Error(), nil), nil
 		}
+		// A handler that returns neither a result nor an error has failed: "result": null is not a GetPromptResult.
+		if result == nil {
+			return newJSONRPCErrorResponse(req.ID, ErrCodeInternal,
+				fmt.Sprintf("prompt handler returned no result (prompt: %s)", registeredPrompt.Prompt.Name), nil), nil
+		}
+		// MCP requires "messages" to be an array; a nil slice would be encoded as null.
+		if result.Messages == nil {
+			result.Messages = []PromptMessage{}
+		}
 		return result, nil
 	}
 
